@@ -38,6 +38,8 @@ fn templates(d: &str) -> Vec<Template> {
         Template { name: "env-indexed", pattern: format!("{}/$ENV{{LV_FW_SLOT_{{}}}}.log", d), expanded: format!("{}/slot-{{}}-name.log", d), gz: false },
         // the rolled file lives on another filesystem than the archives (rename fails, copy and delete)
         Template { name: "cross-mount", pattern: format!("{}/xm.{{}}.log", d), expanded: format!("{}/xm.{{}}.log", d), gz: false },
+        // the reference sits in the last component of the pattern and its value brings directories along
+        Template { name: "env-tail", pattern: format!("{}/$ENV{{LV_FW_TAIL}}.{{}}.log", d), expanded: format!("{}/t/ail/arch.{{}}.log", d), gz: false },
         Template { name: "gzip", pattern: format!("{}/gz.{{}}.log.gz", d), expanded: format!("{}/gz.{{}}.log.gz", d), gz: true },
     ]
 }
@@ -158,10 +160,11 @@ pub fn main(args: &[String]) {
     let mut res = vec![];
     let mut runs = 0;
     for (ci, case) in rows.iter().enumerate() {
-        for ti in 0..7 {
+        for ti in 0..8 {
             let s = Scratch::new("fw");
             let d = s.path().to_string_lossy().to_string();
             std::env::set_var("LV_FW_DIR", format!("{}/e{{}}x", d));
+            std::env::set_var("LV_FW_TAIL", "t/ail/arch");
             let (lo, cnt) = (case["lo"].as_i64().unwrap(), case["count"].as_i64().unwrap() + case["base"].as_i64().unwrap());
             for i in (lo - 2).max(0)..=(cnt + 3) {
                 std::env::set_var(format!("LV_FW_SLOT_{}", i), format!("slot-{}-name", i));
